@@ -185,6 +185,9 @@ func (c *Conn) Abort() {
 	}
 }
 
+// Peer returns the other end.
+func (c *Conn) Peer() *Conn { return c.peer }
+
 // IsClosed reports whether Close was called on this end.
 func (c *Conn) IsClosed() bool { return c.closed }
 
